@@ -17,7 +17,12 @@ RULE = ("(a) Hypothesis draws rate vectors of 1..400 non-negative rates (0-90% z
         "bisection; P(cell) = sum over rows of the u-interval lengths / rows. Oracle: |P - rate/fsum(rates)| <= 1e-12, "
         "total_rate == fsum(rates) (rel 1e-13), zero-rate cells never returned at any evaluated draw incl. u=0 and "
         "u=1, construction raises nothing. Non-trivial: >=1 zero rate and >=2 distinct positive rates. "
-        "(b) see the handler check. Distinct by the rate vector / configuration.")
+        "(b) real LeafUnitCellVetoEventHandler on drawn periodic grids with a harness Estimator whose bounds B(offset, "
+        "direction) are known, active cell anywhere incl. periodic faces, both charge signs: candidate time == ts + "
+        "e/(beta*sum_offsets max(B,0)*|q|*speed); enumerating alias rows x located thresholds, the target cell at offset "
+        "r from the active cell is proposed with probability max(B(r),0)/sum; the break point of the confirmation "
+        "draw equals q_true/(B(sampled offset, direction)*|q|); an empty target cell leaves the state unchanged. "
+        "Non-trivial (b): active cell on a periodic face. Distinct by the rate vector / configuration.")
 ASSUMPTIONS = ["rates are 0 or in [1e-9, 1e9] with a positive sum (denormal rates underflow the mean rate; an all-zero vector has no distribution and "
                "divides by zero at construction: excluded and counted)",
                "random.choice/uniform replaced through the module attribute `random` of the walker module"]
@@ -125,3 +130,169 @@ def _unwrap(f):
 
 CHECKS = [Check("walker", _unwrap(body_walker), lambda: {"c": rates_case()}, quick=400, thorough=5000,
                 quick_shards=12)]
+
+
+# ------------------------------------------------------------------------------------------------ (b) cell-veto handler
+
+def bound_function(lo, hi, d):
+    """Harness-known estimator bounds as a function of the corners of the relative cell and the direction."""
+    m = [(a + b) / 2.0 for a, b in zip(lo, hi)]
+    phase = 3.1 * m[0] + 5.3 * (m[1] if len(m) > 1 else 0.0) + 7.7 * (m[2] if len(m) > 2 else 0.0) + 1.3 * d
+    upper = 0.2 + abs(math.sin(phase)) + 0.1 * d
+    if math.cos(7.0 * phase) > 0.8:
+        upper = -0.5          # a relative cell whose upper bound is negative: rate max(.,0) = 0, never proposed
+    lower = -(0.15 + abs(math.cos(phase)))
+    return upper, lower
+
+
+@st.composite
+def veto_case(draw):
+    dim = 3
+    per = [draw(st.integers(3, 5)) for _ in range(dim)]
+    if max(per) <= 3:
+        per[draw(st.integers(0, 2))] = 4
+    lengths = [draw(st.sampled_from([1.0, 2.0]))] * 3 if draw(st.booleans()) else [draw(st.sampled_from([1.0, 1.5, 2.0]))
+                                                                                  for _ in range(3)]
+    active_cell = [draw(st.integers(0, n - 1)) for n in per]
+    frac = [draw(gen.floats(0.05, 0.95)) for _ in range(3)]
+    return {"per_side": per, "lengths": lengths, "active_cell": active_cell, "frac": frac,
+            "direction": draw(st.integers(0, 2)), "speed": draw(st.sampled_from([1.0, 0.5, 2.0])),
+            "charge": draw(st.sampled_from([1.0, -1.0, 2.0, -0.5])), "target_charge": draw(st.sampled_from([1.0, -1.0])),
+            "beta": draw(st.sampled_from([0.5, 1.0, 2.0])), "expo": draw(gen.log_uniform(1e-2, 3.0)),
+            "ts": [float(draw(st.integers(0, 20))), draw(gen.floats(0.0, 0.999))],
+            "probe_rows": draw(st.lists(st.integers(0, 10 ** 6), min_size=2, max_size=4)),
+            "target_frac": [draw(gen.floats(0.1, 0.9)) for _ in range(3)]}
+
+
+def body_veto(rec, **c):
+    import contextlib
+    import io
+    import jellyfysh.setting as setting
+    from jellyfysh.setting import hypercubic_setting, hypercuboid_setting
+    from jellyfysh.activator.internal_state.cell_occupancy.cells.cuboid_periodic_cells import CuboidPeriodicCells
+    from jellyfysh.base.node import Node
+    from jellyfysh.base.unit import Unit
+    from jellyfysh.base.time import Time
+    from jellyfysh.event_handler import walker as mod_w
+    from jellyfysh.event_handler import leaf_unit_cell_veto_event_handler as mod_leaf
+    from jellyfysh.event_handler.abstracts import cell_veto_event_handler as mod_cv
+    from jellyfysh.event_handler.abstracts import event_handler_with_bounding_potential as mod_bp
+    from jellyfysh.potential.inverse_power_potential import InversePowerPotential
+    from .. import stubs
+    from ..oracles import energies
+    setting.reset()
+    lengths, per = c["lengths"], c["per_side"]
+    if all(L == lengths[0] for L in lengths):
+        hypercubic_setting.HypercubicSetting(beta=c["beta"], dimension=3, system_length=lengths[0])
+    else:
+        hypercuboid_setting.HypercuboidSetting(beta=c["beta"], dimension=3, system_lengths=list(lengths))
+    setting.set_number_of_root_nodes(2)
+    setting.set_number_of_nodes_per_root_node(1)
+    setting.set_number_of_node_levels(1)
+    cells = CuboidPeriodicCells(cells_per_side=list(per), neighbor_layers=1)
+    pot = InversePowerPotential(power=1.0, prefactor=1.0)
+    Estimator = stubs.make_estimator_class()
+    handler = mod_leaf.LeafUnitCellVetoEventHandler(estimator=Estimator(pot, bound_function), charge="q")
+    with contextlib.redirect_stdout(io.StringIO()):
+        handler.initialize(cells, 1)
+    d, speed, qa = c["direction"], c["speed"], c["charge"]
+    by_id = {cell.identifier: cell for cell in cells.yield_cells()}
+    acell = by_id[tuple(c["active_cell"])]
+    apos = [acell.cell_min[i] + (acell.cell_max[i] - acell.cell_min[i]) * c["frac"][i] for i in range(3)]
+    v = [0.0, 0.0, 0.0]
+    v[d] = speed
+    # harness-side table of bounds per relative offset
+    zero = cells.zero_cell
+    offsets = {}
+    for cell in cells.yield_cells():
+        if cell in cells.nearby_cells(zero):
+            continue
+        lo = tuple(cell.cell_min[i] - zero.cell_max[i] for i in range(3))
+        hi = tuple(cell.cell_max[i] - zero.cell_min[i] for i in range(3))
+        up, low = bound_function(lo, hi, d)
+        offsets[cell.identifier] = max(up, 0.0) if qa > 0 else max(-low, 0.0)
+    total = math.fsum(offsets.values())
+    if not total > 0.0:
+        rec.exclude("all offsets have zero rate")
+        return
+    want_time_disp = (c["expo"] / c["beta"]) / (total * abs(qa) * speed)
+
+    def propose(row, u):
+        node = Node(Unit((0,), list(apos), {"q": qa}, list(v), Time(*c["ts"])), weight=1)
+        s_w = Scripted(choices=[row], uniforms=[u])
+        s_cv = Scripted(expos=[c["expo"]])
+        old = (mod_w.random, mod_cv.random)
+        mod_w.random, mod_cv.random = s_w, s_cv
+        try:
+            t, extra = handler.send_event_time([node])
+        finally:
+            mod_w.random, mod_cv.random = old
+        if s_w.leftover() or s_cv.leftover():
+            raise HarnessError("cell-veto proposal drew fewer random numbers than scripted")
+        rows = [e[1] for e in s_w.log if e[0] == "choice"][0]
+        return t, extra[0], rows, node
+
+    t, target, rows, node = propose(0, 0.5)
+    got_disp = (t.quotient - c["ts"][0]) + (t.remainder - c["ts"][1])
+    if abs(got_disp - want_time_disp) > 1e-9 * want_time_disp + 1e-12:
+        rec.fail("veto/candidate-time", "candidate time displacement %r, expected e/(beta*sum_offsets max(B,0)*|q|*speed) "
+                 "= %r (total bound rate %r, charge %r, speed %r)" % (got_disp, want_time_disp, total, qa, speed), c)
+    prob = {}
+
+    def offset_of(tcell):
+        return tuple((tcell.identifier[i] - acell.identifier[i]) % per[i] for i in range(3))
+    for row in range(rows):
+        def f(u, row=row):
+            return offset_of(propose(row, u)[1])
+        steps, _ = bisect_steps(f)
+        edges = [0.0] + [(s[0] + s[1]) / 2.0 for s in steps] + [1.0]
+        values = [f(0.0)] + [s[3] for s in steps]
+        for j, off in enumerate(values):
+            prob[off] = prob.get(off, 0.0) + (edges[j + 1] - edges[j]) / rows
+    for off in set(prob) | set(offsets):
+        want = offsets.get(off, 0.0) / total
+        if abs(prob.get(off, 0.0) - want) > 1e-10:
+            rec.fail("veto/offset-probability", "target cell at offset %r from the active cell %r is proposed with "
+                     "probability %r, its bound gives %r (grid %r, direction %d, charge %r)" % (
+                         off, acell.identifier, prob.get(off, 0.0), want, per, d, qa), c)
+    # confirmation against the bound stored for the sampled offset
+    nt = any(x in (0, per[i] - 1) for i, x in enumerate(acell.identifier))
+    for row in c["probe_rows"]:
+        t, tcell, _, node = propose(row % rows, 0.37)
+        off = offset_of(tcell)
+        bound = offsets[off] * abs(qa)
+        tpos = [tcell.cell_min[i] + (tcell.cell_max[i] - tcell.cell_min[i]) * c["target_frac"][i] for i in range(3)]
+        sep = setting.periodic_boundaries.separation_vector(node.value.position, tpos)
+        q_true = -energies.inverse_power_grad(1.0, 1.0, qa * c["target_charge"], sep, d) * speed
+        thr = max(0.0, q_true) / bound
+
+        def confirm(u):
+            _, tc2, _, nd = propose(row % rows, 0.37)
+            tnode = Node(Unit((1,), list(tpos), {"q": c["target_charge"]}, None, None), weight=1)
+            s_bp = Scripted(uniforms=[u], strict=False)
+            old = mod_bp.random
+            mod_bp.random = s_bp
+            try:
+                out = handler.send_out_state(tnode)
+            finally:
+                mod_bp.random = old
+            return tnode.value.velocity is not None
+        lo, hi = thr * (1 - 1e-9) - 1e-12, thr * (1 + 1e-9) + 1e-12
+        if 0.0 < lo < 1.0 and not confirm(lo):
+            rec.fail("veto/confirmation-bound", "offset %r: event not confirmed at u=%r below q_true/(B*|q|) = %r: the "
+                     "confirmation does not use the bound stored for this offset and direction" % (off, lo, thr), c)
+        if hi < 1.0 and confirm(hi):
+            rec.fail("veto/confirmation-bound", "offset %r: event confirmed at u=%r above q_true/(B*|q|) = %r" % (
+                off, hi, thr), c)
+    # empty target cell: the out-state is the unchanged in-state
+    _, _, _, nd = propose(0, 0.5)
+    out = handler.send_out_state(None)
+    if len(out) != 1 or out[0].value.velocity != v:
+        rec.fail("veto/empty-target", "proposal into an empty cell changed the active unit", c)
+    rec.case("veto/%s/%s" % ("face" if nt else "interior", "negative-charge" if qa < 0 else "positive-charge"),
+             (repr(sorted(c.items())),), nt, {"grid": per, "active_cell": acell.identifier, "offsets": len(offsets),
+                                               "rows": rows, "direction": d, "charge": qa})
+
+
+CHECKS.append(Check("cell_veto_handler", _unwrap(body_veto), lambda: {"c": veto_case()}, quick=25, thorough=400,
+                    quick_shards=8))
